@@ -138,7 +138,7 @@ int main(int argc, char **argv) {
     return 2;
   }
   int shard_k = 0, shard_n = 1;
-  for (int i = 4; i + 1 < argc; i += 2) {
+  for (int i = 4; i + 1 < argc; ++i) {
     const std::string a = argv[i];
     if (a == "--trace") {
       sink_open(argv[i + 1]);
@@ -154,38 +154,97 @@ int main(int argc, char **argv) {
       setrlimit(RLIMIT_STACK, &rl);
     }
   }
-  std::ifstream in(argv[2]);
-  if (!in) {
-    std::fprintf(stderr, "cannot read %s\n", argv[2]);
-    return 2;
+  bool supervise = false;
+  for (int i = 4; i < argc; ++i) {
+    if (std::string(argv[i]) == "--supervise") { supervise = true; }
+  }
+  std::vector<std::string> lines;
+  {
+    std::ifstream in(argv[2]);
+    if (!in) {
+      std::fprintf(stderr, "cannot read %s\n", argv[2]);
+      return 2;
+    }
+    std::string line;
+    long idx = 0;
+    while (std::getline(in, line)) {
+      if (line.empty()) { continue; }
+      if ((idx++ % shard_n) != shard_k) { continue; }
+      lines.push_back(line);
+    }
   }
   FILE *out = std::fopen(argv[3], "w");
   if (!out) { return 2; }
-  std::string line;
-  long idx = 0, done = 0;
-  while (std::getline(in, line)) {
-    if (line.empty()) { continue; }
-    if ((idx++ % shard_n) != shard_k) { continue; }
-    J c;
+  long done = 0;
+  auto run_line = [&](const std::string &l) -> std::string {
+    J c = parse_json(l);
+    if (c.num("fork", 0) != 0 && !supervise) {
+      return run_forked(c.str("id"), static_cast<int>(c.num("to", 10)), [&] { return run_case(c); });
+    }
+    if (supervise) { alarm(static_cast<unsigned>(c.num("to", 10))); }
     try {
-      c = parse_json(line);
+      return run_case(c);
     } catch (const std::exception &e) {
-      std::fprintf(stderr, "bad case line %ld: %s\n", idx, e.what());
-      return 2;
+      return "{\"id\":" + jstr(c.str("id")) + ",\"harness_error\":" + jstr(e.what()) + "}";
     }
-    std::string r;
-    if (c.num("fork", 0) != 0) {
-      r = run_forked(c.str("id"), static_cast<int>(c.num("to", 10)), [&] { return run_case(c); });
-    } else {
+  };
+  if (!supervise) {
+    for (const auto &l : lines) {
+      std::string r;
       try {
-        r = run_case(c);
+        r = run_line(l);
       } catch (const std::exception &e) {
-        r = "{\"id\":" + jstr(c.str("id")) + ",\"harness_error\":" + jstr(e.what()) + "}";
+        std::fprintf(stderr, "bad case: %s\n", e.what());
+        return 2;
       }
+      std::fputs(r.c_str(), out);
+      std::fputc('\n', out);
+      ++done;
     }
-    std::fputs(r.c_str(), out);
-    std::fputc('\n', out);
-    ++done;
+  } else {
+    // supervisor: a worker child runs cases in sequence; when it dies (signal, abort, alarm) the case it was
+    // running is recorded as an observation ("died") and a new worker continues with the next case
+    long *cur = static_cast<long *>(mmap(nullptr, sizeof(long), PROT_READ | PROT_WRITE, MAP_SHARED | MAP_ANONYMOUS, -1, 0));
+    *cur = 0;
+    long start = 0;
+    while (start < static_cast<long>(lines.size())) {
+      std::fflush(nullptr);
+      const pid_t pid = fork();
+      if (pid < 0) { return 2; }
+      if (pid == 0) {
+        for (long i = start; i < static_cast<long>(lines.size()); ++i) {
+          *cur = i;
+          std::string r;
+          try {
+            r = run_line(lines[static_cast<size_t>(i)]);
+          } catch (const std::exception &e) {
+            std::fprintf(stderr, "bad case: %s\n", e.what());
+            _exit(3);
+          }
+          alarm(0);
+          std::fputs(r.c_str(), out);
+          std::fputc('\n', out);
+          std::fflush(out);
+        }
+        *cur = static_cast<long>(lines.size());
+        sink_flush();
+        std::fflush(nullptr);
+        _exit(0);
+      }
+      int st = 0;
+      waitpid(pid, &st, 0);
+      if (WIFEXITED(st) && WEXITSTATUS(st) == 3) { return 2; }
+      if (*cur >= static_cast<long>(lines.size())) { break; }
+      // worker died on case *cur
+      std::string died = WIFSIGNALED(st) ? (WTERMSIG(st) == SIGALRM ? "timeout" : "sig" + std::to_string(WTERMSIG(st)))
+                                         : "exit" + std::to_string(WEXITSTATUS(st));
+      J c = parse_json(lines[static_cast<size_t>(*cur)]);
+      std::fseek(out, 0, SEEK_END);
+      std::fprintf(out, "{\"id\":%s,\"died\":%s}\n", jstr(c.str("id")).c_str(), jstr(died).c_str());
+      std::fflush(out);
+      start = *cur + 1;
+    }
+    done = static_cast<long>(lines.size());
   }
   std::fclose(out);
   sink_flush();
